@@ -6,7 +6,7 @@
 Require Import ZArith List String Bool Reals.
 Import ListNotations.
 From GLMV Require Import Expr SemR Cat Comm Chk SpecLinAlg SpecProj SpecGeom.
-From W Require Gen_C04 Gen_C04_WXYZ P_C04_a P_C04_euler P_C04_wxyz.
+From W Require Gen_C04 Gen_C04_WXYZ P_C04_a P_C04_euler P_C04_wxyz P_C04_axis.
 Local Open Scope string_scope.
 Theorem C04_rotation_by_quaternion_is_its_matrix : P_C04_a.rot_ok. Proof. exact P_C04_a.rot_def. Qed.
 Theorem C04_matrix_of_product_is_product_of_matrices : P_C04_a.prod_ok. Proof. exact P_C04_a.prod_def. Qed.
@@ -18,8 +18,15 @@ Theorem C04_yawPitchRoll : P_C04_euler.ypr_ok. Proof. exact P_C04_euler.ypr_def.
 Theorem C04_storage_order_changes_nothing :
   P_C04_wxyz.same_cat Gen_C04.catalogue Gen_C04_WXYZ.catalogue = true /\ (60 <=? Z.of_nat (List.length Gen_C04.catalogue))%Z = true.
 Proof. exact P_C04_wxyz.wxyz_same. Qed.
+(* axis(q) of a unit quaternion is a unit vector for every q, (0,0,1) at w = +-1 *)
+Theorem C04_axis_is_a_unit_vector : forall env, (P_C04_axis.qx env * P_C04_axis.qx env + P_C04_axis.qy env * P_C04_axis.qy env + P_C04_axis.qz env * P_C04_axis.qz env + P_C04_axis.qw env * P_C04_axis.qw env = 1)%R ->
+  exists a b c, evalT env Gen_C04.t_axis_q = Some (true, [a; b; c]) /\ (a * a + b * b + c * c = 1)%R /\
+    ((1 - P_C04_axis.qw env * P_C04_axis.qw env <= 0)%R -> a = 0%R /\ b = 0%R /\ c = 1%R) /\
+    ((0 < 1 - P_C04_axis.qw env * P_C04_axis.qw env)%R -> exists s, (0 < s)%R /\ a = (P_C04_axis.qx env * s)%R /\ b = (P_C04_axis.qy env * s)%R /\ c = (P_C04_axis.qz env * s)%R).
+Proof. exact P_C04_axis.axis_is_unit. Qed.
 Print Assumptions C04_rotation_by_quaternion_is_its_matrix.
 Print Assumptions C04_matrix_of_product_is_product_of_matrices.
 Print Assumptions C04_inverse_conjugate_hamilton.
 Print Assumptions C04_three_axis_euler_matrices_factor.
 Print Assumptions C04_storage_order_changes_nothing.
+Print Assumptions C04_axis_is_a_unit_vector.
